@@ -2,7 +2,6 @@ package sqlittle
 
 import (
 	"fmt"
-	"strings"
 
 	sdb "github.com/alicebob/sqlittle/db"
 	"github.com/alicebob/sqlittle/sql"
@@ -25,7 +24,7 @@ func asDbKey(k Key, cols []sdb.IndexColumn) (sdb.Key, error) {
 		}
 		c := cols[i]
 		dbk[i].Desc = c.SortOrder == sql.Desc
-		if collate := strings.ToLower(c.Collate); collate != "" {
+		if collate := sql.ToLower(c.Collate); collate != "" {
 			if _, ok := sdb.CollateFuncs[collate]; !ok {
 				return nil, fmt.Errorf("unknown collate function: %q", collate)
 			}
